@@ -407,7 +407,7 @@ func (E *Engine) slice(st *State, x *ssa.Slice) *Val {
 		g := and(sx("<=", "0", lo), sx("<=", lo, hi), sx("<=", hi, mx), sx("<=", mx, cp))
 		E.oblige(st, "bounds", E.site(x), g, "slice bounds", E.pos(x), nil)
 		st.assume(g)
-		return &Val{T: x.Type(), F: []*Val{intVal(ref), intVal(sx("+", off, lo)), intVal(sx("-", hi, lo)), intVal(sx("-", mx, lo))}}
+		return &Val{T: x.Type(), F: []*Val{intVal(ref), intVal(add(off, lo)), intVal(sub(hi, lo)), intVal(sub(mx, lo))}}
 	case *types.Pointer:
 		arr := t.Elem().Underlying().(*types.Array)
 		n := intLit(arr.Len())
@@ -432,7 +432,7 @@ func (E *Engine) slice(st *State, x *ssa.Slice) *Val {
 		if _, isAlloc := x.X.(*ssa.Alloc); lv.Kind != lvLocal && !isAlloc {
 			E.note("slice of non-local array: aliasing with the array is not tracked")
 		}
-		return &Val{T: x.Type(), F: []*Val{intVal(ref), intVal(lo), intVal(sx("-", hi, lo)), intVal(sx("-", n, lo))}}
+		return &Val{T: x.Type(), F: []*Val{intVal(ref), intVal(lo), intVal(sub(hi, lo)), intVal(sub(n, lo))}}
 	}
 	panic(engineErr("Slice on " + typeKey(x.X.Type())))
 }
